@@ -534,7 +534,19 @@ fn failing_clone_case(rep: &Report, idx: usize, seed: u64) -> Option<String> {
         std::fs::write(&apath, &bytes).unwrap();
         let odir = dir.join("outdir");
         std::fs::create_dir_all(&odir).unwrap();
-        let out = odir.join("out.bin");
+        // Every tenth case: the archive is fine but OUTPUT names a file in a directory that
+        // does not exist (one or two missing levels): the clone must fail without creating
+        // anything — directories are not "the given output".
+        let missing_dir = idx % 10 == 4;
+        let out = if missing_dir {
+            let mut d = odir.join("not-there");
+            if rng.chance(1, 2) {
+                d = d.join("nor-this");
+            }
+            d.join("out.bin")
+        } else {
+            odir.join("out.bin")
+        };
         let mode = (idx / 3) % 3; // 0 new, 1 --seed-output on existing, 2 -f on existing
         // Every tenth case: the archive is fine, but the existing output cannot be opened for
         // writing — it is an executable that is running (ETXTBSY) — and -f is given.
@@ -542,6 +554,12 @@ fn failing_clone_case(rep: &Report, idx: usize, seed: u64) -> Option<String> {
         let busy = idx % 10 == 9 && sleep_bin.is_some();
         let (bytes, what, verify) = if busy { (e.bytes.clone(), "-f onto an output that is a running executable", false) } else { (bytes, what, verify) };
         let mode = if busy { 2 } else { mode };
+        let (bytes, what, verify) = if missing_dir { (e.bytes.clone(), "output in a directory that does not exist", false) } else { (bytes, what, verify) };
+        let mode = if missing_dir { [0, 2][(idx / 10) % 2] } else { mode };
+        if missing_dir {
+            std::fs::write(&apath, &bytes).unwrap();
+            bad_seed = None;
+        }
         let mut busy_child: Option<std::process::Child> = None;
         if busy {
             use std::os::unix::fs::PermissionsExt;
@@ -553,7 +571,7 @@ fn failing_clone_case(rep: &Report, idx: usize, seed: u64) -> Option<String> {
                 rep.inconclusive("could not start the executable used as busy output");
                 return Ok(());
             }
-        } else if mode > 0 {
+        } else if mode > 0 && !missing_dir {
             std::fs::write(&out, gen::apply_edit(&mut rng, &source, gen::Edit::Swap)).unwrap();
         }
         let before_out = listing(&odir);
@@ -619,7 +637,10 @@ fn failing_clone_case(rep: &Report, idx: usize, seed: u64) -> Option<String> {
             return Err(format!("failing clone ({}) performed {}({}) — nothing may be removed or renamed", what, name, args.chars().take(100).collect::<String>()));
         }
         let after_out = listing(&odir);
-        if mode > 0 && after_out != before_out {
+        if missing_dir && o.exit.ok() {
+            return Err(format!("clone ({}) reported success: {:?} appeared", what, after_out));
+        }
+        if (mode > 0 || missing_dir) && after_out != before_out {
             return Err(format!("failing clone ({}) changed the output directory: {:?} -> {:?}", what, before_out, after_out));
         }
         if after_out.iter().any(|f| f != "out.bin") {
